@@ -124,11 +124,26 @@ Definition take_line (l : bytes) : option (bytes * bytes) :=
   match split_at LF l with
   | None => None
   | Some (before, rest) =>
+      match frev before with
+      | x0d :: rb => Some (frev rb, rest)
+      | _ => None
+      end
+  end.
+
+Lemma take_line_unfold l : take_line l =
+  match split_at LF l with
+  | None => None
+  | Some (before, rest) =>
       match rev before with
       | x0d :: rb => Some (rev rb, rest)
       | _ => None
       end
   end.
+Proof.
+  unfold take_line. destruct (split_at LF l) as [[bf r]|]; [|reflexivity].
+  rewrite frev_eq. destruct (rev bf) as [|x rb]; [reflexivity|].
+  destruct x; try reflexivity. rewrite frev_eq. reflexivity.
+Qed.
 
 Record sfield := { s_name : bytes; s_raw : bytes }.     (* name, everything after the colon *)
 Record shead := { s_method : bytes; s_target : bytes; s_minor : bool; s_fields : list sfield }.
